@@ -621,20 +621,6 @@ def _quiet_worker():
     os.dup2(devnull, 2)
 
 
-def replay_all(ctx, jobs, workers=8):
-    """Run the jobs in a pool of real processes (non-daemonic: the parallel cascades fork their own workers)."""
-    import concurrent.futures as cf
-    import multiprocessing as mp
-    # long (parallel) jobs first
-    order = sorted(range(len(jobs)), key=lambda i: 0 if jobs[i][0]["run"].endswith(("par2", "par3")) else 1)
-    results = [None] * len(jobs)
-    with cf.ProcessPoolExecutor(max_workers=workers, mp_context=mp.get_context("fork"), initializer=_quiet_worker) as ex:
-        futs = {ex.submit(replay_case, jobs[i]): i for i in order}
-        for f in cf.as_completed(futs):
-            results[futs[f]] = f.result()
-    return results
-
-
 def report(ctx, prop, jobs, results):
     """Turn the workers' findings into verdicts for property `prop`."""
     for (meta, rec), (findings, stats) in zip(jobs, results):
@@ -695,10 +681,10 @@ def enum_meta(rec, i, scratch):
 
 
 QUICK_PLAN = [
-    # (fmt, dtag, n at depth 2 (T=4), n at depth 1 (T=4))
-    ("fits", "f4", 22, 10), ("fits", "f8", 6, 4), ("fits", "i2", 8, 4), ("fits", "i4", 3, 2),
-    ("npy", "f4", 20, 10), ("npy", "f8", 8, 4), ("npy", "u1", 12, 6), ("npy", "i2", 6, 3), ("npy", "i4", 6, 3),
-    ("png", "rgba", 24, 10), ("png", "rgb", 12, 6), ("jpg", "rgb", 4, 2),
+    # (fmt, dtag, random cases at depth 2 (T=4), at depth 1 (T=4)); the structured shapes come on top (build_cases)
+    ("fits", "f4", 10, 10), ("fits", "f8", 3, 4), ("fits", "i2", 4, 4), ("fits", "i4", 3, 3),
+    ("npy", "f4", 8, 10), ("npy", "f8", 4, 4), ("npy", "u1", 5, 6), ("npy", "i2", 3, 3), ("npy", "i4", 4, 4),
+    ("png", "rgba", 10, 10), ("png", "rgb", 5, 6), ("jpg", "rgb", 2, 2),
 ]
 PARALLEL_PLAN_QUICK = [("fits", "f4", "par2"), ("fits", "f4", "par3"), ("npy", "f4", "par2"), ("npy", "u1", "par3"),
                        ("png", "rgba", "par2"), ("png", "rgb", "cli-par2"), ("fits", "i2", "cli-par2"),
@@ -718,6 +704,10 @@ def build_cases(ctx, T, depth, plan, parallel_plan, mult=1, allow_keepu=True, re
         c = make_case(rng, cid[0], T, depth, fmt, dtag, **kw)
         cases.append(c)
         return c
+    for fmt, dtag, run in parallel_plan:         # first: they take longest and go into the first chunk
+        can_u = CONFIGS[(fmt, dtag)] != "Int" and dtag != "rgb"
+        new(fmt, dtag, run=run, pleaf=rng.choice([0.5, 0.8, 1.0]), stale_p=0.5,
+            shape=("full-then-four-partial" if can_u else "full-then-sparse") if run in ("par3", "par2") else None)
     for fmt, dtag, n2, n1 in plan:
         n = (n2 if depth >= 2 else n1) * mult
         can_u = CONFIGS[(fmt, dtag)] != "Int" and dtag != "rgb"
@@ -734,10 +724,6 @@ def build_cases(ctx, T, depth, plan, parallel_plan, mult=1, allow_keepu=True, re
         for i in range(n):
             run = ["serial", "serial", "cli", "serial", "filter", "serial"][i % 6]
             new(fmt, dtag, run=run)
-    for fmt, dtag, run in parallel_plan:
-        can_u = CONFIGS[(fmt, dtag)] != "Int" and dtag != "rgb"
-        new(fmt, dtag, run=run, pleaf=rng.choice([0.5, 0.8, 1.0]), stale_p=0.5,
-            shape=("full-then-four-partial" if can_u else "full-then-sparse") if run in ("par3", "par2") else None)
     return cases
 
 
@@ -784,7 +770,10 @@ def plan_binding(ctx, prop, plan, parallel_plan, only_fits=False, builder_runs=0
             fits_data = [c for c in cases if c["fmt"] == "fits" and c["has_data"] and not c["keepu"] and c["run"] in ("serial", "cli", "par2")]
             for i, c in enumerate(fits_data[: builder_runs * (2 if depth == 2 else 1)]):
                 c["run"] = "builder-par2" if (c["run"] == "par2" or (i % 7 == 3 and depth == 2 and not quick)) else "builder"
-        tasks.append({"name": "MC%sd%d" % (prop, depth), "T": T, "depth": depth, "cases": cases})
+        # quick tier: every children-first order for the first chunk, a window of 2 ready positions for the others
+        tasks.append({"name": "MC%sd%d" % (prop, depth), "T": T, "depth": depth, "cases": cases, "chunk": 45 if depth >= 2 else 120,
+                      "first_chunk": (30 if quick else 45) if depth >= 2 else 120,
+                      "later_window": 2 if (quick and depth >= 2) else None})
     if not quick:
         # depth 3 needs T = 8 for the lifting to stay exact through three levels; TLC explores the merge orders in which
         # at most 2 ready positions run ahead of the walk order (all 2^16 interleavings of level 2 are out of reach)
@@ -800,38 +789,75 @@ def plan_binding(ctx, prop, plan, parallel_plan, only_fits=False, builder_runs=0
     return tasks
 
 
-def run_tasks(ctx, tasks, chunk=45, concurrent=6):
-    """Model-check the tasks, several TLC processes side by side (TLC generates initial states sequentially, one
-    case = one initial state, so the families are cut into chunks).  -> list of (task, records)"""
+def _warm():
+    import time
+    time.sleep(0.3)
+    return os.getpid()
+
+
+def run_pipeline(ctx, tasks, enum_jobs, chunk=45, concurrent=6, workers=8):
+    """Model-check the tasks with several TLC processes side by side (TLC generates initial states sequentially and
+    one case = one initial state, so the families are cut into chunks) and push every chunk's emitted records through
+    the real code as soon as TLC has finished with it.  -> (jobs, results) in a deterministic order."""
     import concurrent.futures as cf
-    units = []
-    for t in tasks:
+    import multiprocessing as mp
+    import time
+    units, windows = [], {}
+    for ti, t in enumerate(tasks):
         if "expr" in t:
-            units.append((t, None, t["name"]))
+            units.append((ti, None, t["name"]))
             continue
         n = t.get("chunk", chunk)
-        for k in range(0, len(t["cases"]), n):
-            units.append((t, t["cases"][k:k + n], "%sc%d" % (t["name"], k // n)))
+        first = t.get("first_chunk", n)
+        cuts = [0] + list(range(first, len(t["cases"]), n))
+        for ci, k in enumerate(cuts):
+            end = cuts[ci + 1] if ci + 1 < len(cuts) else len(t["cases"])
+            units.append((ti, t["cases"][k:end], "%sc%d" % (t["name"], ci)))
+            if ci > 0 and t.get("later_window"):
+                windows[units[-1][2]] = t["later_window"]
+    # the biggest models first
+    units.sort(key=lambda u: -(tasks[u[0]]["depth"] * 1000 + (len(u[1]) if u[1] else 500)))
 
     def one(u):
-        t, cases, name = u
+        ti, cases, name = u
+        t = tasks[ti]
         return run_tlc_cases(ctx, name, t["T"], t["depth"], cases=cases, cases_expr=t.get("expr"), timeout=3600,
-                             workers=max(2, 16 // concurrent), window=t.get("window"))
-    with cf.ThreadPoolExecutor(max_workers=concurrent) as ex:
-        outs = list(ex.map(one, units))
-    res = []
-    for t in tasks:
-        recs, states = [], 0
-        for (tt, _c, _n), (r, rr) in zip(units, outs):
-            if tt is t:
-                recs += rr
-                states += r.distinct
+                             workers=max(2, 16 // concurrent), window=windows.get(name, t.get("window")))
+    t0 = time.time()
+    # real worker processes (non-daemonic: the parallel cascades fork their own workers); all forked before any thread exists
+    pool = cf.ProcessPoolExecutor(max_workers=workers, mp_context=mp.get_context("fork"), initializer=_quiet_worker)
+    try:
+        pids = set(f.result() for f in [pool.submit(_warm) for _ in range(workers)])
+        submitted = []
+        per_task = dict((ti, {"recs": 0, "states": 0}) for ti in range(len(tasks)))
+        with cf.ThreadPoolExecutor(max_workers=concurrent) as tex:
+            futs = dict((tex.submit(one, u), u) for u in units)
+            for f in cf.as_completed(futs):
+                ti, cases, name = futs[f]
+                r, recs = f.result()
+                t = tasks[ti]
+                per_task[ti]["recs"] += len(recs)
+                per_task[ti]["states"] += r.distinct
+                if cases is None:
+                    js = enum_jobs(t, recs)
+                else:
+                    check_terminal_unique(ctx, recs, name)
+                    js = jobs_for(ctx, cases, recs)
+                # long (parallel) runs first
+                js.sort(key=lambda j: 0 if j[0]["run"].endswith(("par2", "par3")) else 1)
+                for j in js:
+                    submitted.append((ti, name, j, pool.submit(replay_case, j)))
+        t_tlc = time.time() - t0
+        out = [(ti, name, j, fut.result()) for ti, name, j, fut in submitted]
+    finally:
+        pool.shutdown(wait=True, cancel_futures=True)
+    out.sort(key=lambda o: (o[0], o[1], str(o[2][0]["id"])))
+    for ti, t in enumerate(tasks):
         ctx.note("tlc_%s" % t["name"], {"T": t["T"], "depth": t["depth"], "cases": len(t["cases"]) if "cases" in t else t.get("family"),
-                                         "distinct_states": states, "terminal_records": len(recs)})
-        if "cases" in t:
-            check_terminal_unique(ctx, recs, t["name"])
-        res.append((t, recs))
-    return res
+                                         "window": t.get("window") or ("all children-first orders (first chunk), 2 (others)" if t.get("later_window") else "all children-first orders"),
+                                         "distinct_states": per_task[ti]["states"], "terminal_records": per_task[ti]["recs"]})
+    ctx.note("phase_wall_s", {"tlc": round(t_tlc, 1), "replay_tail": round(time.time() - t0 - t_tlc, 1), "pool_processes": len(pids)})
+    return [o[2] for o in out], [o[3] for o in out]
 
 
 def run(ctx):
@@ -848,17 +874,13 @@ def run(ctx):
               "family": "each of the 4 leaves absent or one of %s" % ("3 matrices, both row orders" if quick else "all 16 matrices over {U,1} bottom-up (17^4 populations) + 3 matrices top-down")}]
     # ---- harness-enumerated inputs, all modes / formats / run flavours
     tasks += plan_binding(ctx, "C02", QUICK_PLAN, PARALLEL_PLAN_QUICK)
-    jobs = []
-    for t, recs in run_tasks(ctx, tasks):
-        if "expr" in t:
-            step = 2 if quick else 6
-            jobs += [(enum_meta(rec, i, ctx.scratch), rec) for i, rec in enumerate(recs) if i % step == 0]
-        else:
-            jobs += jobs_for(ctx, t["cases"], recs)
+    def enum_jobs(t, recs):
+        step = 3 if quick else 6
+        return [(enum_meta(rec, i, ctx.scratch), rec) for i, rec in enumerate(recs) if i % step == 0]
+    jobs, results = run_pipeline(ctx, tasks, enum_jobs)
     ctx.exhaustive = False
     if not jobs:
         ctx.machinery("no cases")
-    results = replay_all(ctx, jobs)
     report(ctx, "C02", jobs, results)
     ctx.note("replayed", {"cases": len(jobs), "tiles_compared": sum(s["tiles"] for _f, s in results),
                           "parallel_runs": len([1 for m, _r in jobs if m["run"].endswith(("par2", "par3"))]),
